@@ -750,14 +750,18 @@ def shards(tier, seed):
             rows = [27 * i + (i * 7) % 27 for i in range(27)]
             nrow = 3 if slow else 9
             for a in range(0, 27, nrow):
-                inv(method, sigma, ['alpharows', '012^6', rows[a:a + nrow]], chunk=6 if slow else 99)
+                inv(method, sigma, ['alpharows', '012^6', rows[a:a + nrow]],
+                    chunk=6 if slow or method == 'tau-a' else 99)
     for method, sigma in meth_sig:
         slow = method in ('kendall', 'tau-b')
         for n_cond in ((4, 5, 6) if th else (4, 5)):
             step = (2 if slow else 5) if th else (1 if slow else 2)
             for f0 in range(0, 20 if th else 4, step):
-                out.append({'kind': 'Ifill', 'method': method, 'sigma': sigma, 'n_cond': n_cond,
-                            'fills': [f0, f0 + step], 'sides': 'all' if th or not slow else 'rot'})
+                parts = ['plain', 'nan'] if slow and n_cond == 4 else ['both']
+                for part in parts:
+                    out.append({'kind': 'Ifill', 'method': method, 'sigma': sigma, 'n_cond': n_cond,
+                                'fills': [f0, f0 + step], 'sides': 'all' if th or not slow else 'rot',
+                                'part': part})
     # ---- L: spearman == corr of rank-transformed
     out.append({'kind': 'L', 'src': ['alpha', '012^3', [0, 27]]})
     out.append({'kind': 'L', 'src': ['alpha', 'm1012^3', [0, 64]]})
@@ -794,8 +798,9 @@ def run_shard(shard, ctx):
                     return
     elif kind == 'Ifill':
         method = shard['method']
+        part = shard.get('part', 'both')
         for fill in range(shard['fills'][0], shard['fills'][1]):
-            for vk in ('signed', 'ties', 'nonneg'):
+            for vk in (('signed', 'ties', 'nonneg') if part != 'nan' else ()):
                 src = ['fill', shard['n_cond'], fill, vk]
                 base = None
                 for mp in maps_for(method):
@@ -808,7 +813,7 @@ def run_shard(shard, ctx):
                             break
                     if base is None:
                         break
-            if method in RANK_BASED and shard['n_cond'] == 4:
+            if method in RANK_BASED and shard['n_cond'] == 4 and part != 'plain':
                 # every single condition pair missing in all RDMs of both stacks
                 for vk in ('ties', 'nonneg'):
                     for p in range(6):
